@@ -156,3 +156,50 @@ func VerifC17NewNick() {
 	}
 	vReach("end")
 }
+
+// VerifC17Reconnect: the nick bookkeeping across connections of one client, through the
+// real Connect / recv / runLoop / send. Session 1: welcome, then the server renames the
+// client. The connection is lost; on the next one the client registers with its current
+// nick, the server refuses it (433), the client asks for the generated one and is welcomed
+// under it. After every step Me() is the nick the server uses. A NICK handler of the
+// application looks at Me() (as user code does); only the server end of each wire is read.
+func VerifC17Reconnect() {
+	track := vLen("track", 0, 1) == 1
+	nb := vStr("newnick", 1)
+	vAssume(nb[0] < 0x80 && (nb[0]|0x20)-'a' < 26)
+	newnick := "n" + nb
+	cfg := NewConfig("me")
+	cfg.Server, cfg.Proxy, cfg.PingFreq, cfg.Flood = "srv:1", "vtest://p", 0, true
+	gen := cfg.NewNick(newnick)
+	w1 := vNewLiveWire(":srv 001 me :Welcome\r\n:me!u@h NICK " + newnick + "\r\n")
+	w2 := vNewLiveWire(":srv 433 * " + newnick + " :Nickname is already in use\r\n:srv 001 " + gen + " :Welcome\r\n")
+	d := &vDialer{wires: []*vWire{w1, w2}}
+	vInstallDialer(d)
+	conn := Client(cfg)
+	if track {
+		conn.EnableStateTracking()
+	}
+	conn.HandleFunc("NICK", func(c *Conn, l *Line) { _ = c.Me() })
+	err := conn.Connect()
+	vAssume(err == nil)
+	vRunPending()
+	vAssert(conn.Me() != nil && conn.Config().Me != nil, "reconnect:me-non-nil")
+	vAssert(conn.Me().Nick == newnick, "reconnect:me-is-servers-nick")
+	conn.Close()
+	vRunPending()
+	err = conn.Connect()
+	vAssume(err == nil)
+	vRunPending()
+	reg, asked := false, false
+	for _, x := range w2.written {
+		reg = reg || x == "NICK "+newnick+"\r\n"
+		asked = asked || x == "NICK "+gen+"\r\n"
+	}
+	vAssert(reg, "reconnect:registers-with-current-nick")
+	vAssert(asked, "reconnect:asks-for-generated-nick")
+	vAssert(conn.Me() != nil && conn.Config().Me != nil, "reconnect:me-non-nil")
+	vAssert(conn.Me().Nick == gen, "reconnect:me-is-servers-nick")
+	conn.Close()
+	vRunPending()
+	vReach("end")
+}
